@@ -311,16 +311,6 @@ func c01SubExcluded(tc l4Case, sn subnode) string {
 			return "C01-zsh-dollar-hash-eof"
 		}
 	}
-	// C01-command-first-newline: Print(Command) leaves Printer.firstLine set, so the first newline
-	// the layout asks for is dropped (`case x in` NEWLINE `esac` prints `case x inesac`).  The
-	// class is exactly: printing the command differs from printing the bare statement holding it.
-	if cmd, ok := sn.node.(syntax.Command); ok {
-		a, err1, p1 := tc.Opts.printNode(cmd)
-		b, err2, p2 := tc.Opts.printNode(&syntax.Stmt{Cmd: cmd, Position: cmd.Pos()})
-		if err1 == nil && err2 == nil && p1 == "" && p2 == "" && a != b {
-			return "C01-command-first-newline"
-		}
-	}
 	return ""
 }
 
